@@ -112,6 +112,44 @@ type loopFacts struct {
 	cancelLd  *ssa.Call
 	cancelIf  *ssa.If
 	pcStore   *ssa.Store
+	// facts found in a helper that the loop calls with the thread (countStep ...): the call
+	// in CallInternal that stands for them
+	site    map[ssa.Instruction]ssa.Instruction
+	helpers map[*ssa.Function]bool
+}
+
+// anchor: the instruction of CallInternal at which `in` takes effect.
+func (lf *loopFacts) anchor(in ssa.Instruction) ssa.Instruction {
+	if s, ok := lf.site[in]; ok {
+		return s
+	}
+	return in
+}
+
+// before: a is executed before b on every path reaching b (a and b may live in a loop helper).
+func (lf *loopFacts) before(a, b ssa.Instruction) bool {
+	if a.Parent() == b.Parent() {
+		return instrDominates(a, b)
+	}
+	return lf.always(a) && instrDominates(lf.anchor(a), lf.anchor(b))
+}
+
+// always: inside a helper, the instruction runs on every call that returns
+// (its block dominates every return).
+func (lf *loopFacts) always(in ssa.Instruction) bool {
+	if _, ok := lf.site[in]; !ok {
+		return true
+	}
+	for _, b := range in.Parent().Blocks {
+		if len(b.Instrs) > 0 {
+			if _, isRet := b.Instrs[len(b.Instrs)-1].(*ssa.Return); isRet {
+				if !(in.Block() == b || in.Block().Dominates(b)) {
+					return false
+				}
+			}
+		}
+	}
+	return true
 }
 
 func gatherLoop(c *Ctx) *loopFacts {
@@ -120,33 +158,88 @@ func gatherLoop(c *Ctx) *loopFacts {
 		c.anchorFail("(*starlark.Function).CallInternal not found")
 		return nil
 	}
-	lf := &loopFacts{fn: fn}
+	lf := &loopFacts{fn: fn, site: map[ssa.Instruction]ssa.Instruction{}, helpers: map[*ssa.Function]bool{}}
 	lf.fetch = findFetch(fn)
 	if lf.fetch == nil {
 		c.anchorFail("cannot locate the instruction fetch (code[pc]) in CallInternal")
 		return nil
 	}
-	eachInstr(fn, func(in ssa.Instruction) {
-		if st, ok := storeToField(in, "starlark.Thread", "Steps"); ok {
-			lf.stepStore = append(lf.stepStore, st)
-		}
-		if st, ok := storeToField(in, "starlark.frame", "pc"); ok && lf.pcStore == nil {
-			lf.pcStore = st
-		}
-		if ifi, ok := in.(*ssa.If); ok {
-			cond, _ := stripNot(ifi.Cond)
-			if b, ok := cond.(*ssa.BinOp); ok {
-				xs, ys := derivesFromField(b.X, "starlark.Thread", "Steps"), derivesFromField(b.Y, "starlark.Thread", "Steps")
-				xm, ym := derivesFromField(b.X, "starlark.Thread", "maxSteps"), derivesFromField(b.Y, "starlark.Thread", "maxSteps")
-				if (xs && ym) || (ys && xm) {
-					lf.limitIf, lf.limitCmp = ifi, b
-				}
-				if v, _, ok := nilTest(cond); ok {
-					if call, ok := v.(*ssa.Call); ok && isCancelLoad(call) {
-						lf.cancelLd, lf.cancelIf = call, ifi
+	scan := func(g *ssa.Function, site ssa.Instruction) {
+		eachInstr(g, func(in ssa.Instruction) {
+			found := false
+			if st, ok := storeToField(in, "starlark.Thread", "Steps"); ok {
+				lf.stepStore = append(lf.stepStore, st)
+				found = true
+			}
+			if st, ok := storeToField(in, "starlark.frame", "pc"); ok && lf.pcStore == nil {
+				lf.pcStore = st
+				found = true
+			}
+			if ifi, ok := in.(*ssa.If); ok {
+				cond, _ := stripNot(ifi.Cond)
+				if b, ok := cond.(*ssa.BinOp); ok {
+					xs, ys := derivesFromField(b.X, "starlark.Thread", "Steps"), derivesFromField(b.Y, "starlark.Thread", "Steps")
+					xm, ym := derivesFromField(b.X, "starlark.Thread", "maxSteps"), derivesFromField(b.Y, "starlark.Thread", "maxSteps")
+					if (xs && ym) || (ys && xm) {
+						lf.limitIf, lf.limitCmp = ifi, b
+						found = true
+						if site != nil {
+							lf.site[b] = site
+						}
+					}
+					if v, _, ok := nilTest(cond); ok {
+						if call, ok := v.(*ssa.Call); ok && isCancelLoad(call) {
+							lf.cancelLd, lf.cancelIf = call, ifi
+							found = true
+							if site != nil {
+								lf.site[call] = site
+							}
+						}
 					}
 				}
 			}
+			if found && site != nil {
+				lf.site[in] = site
+			}
+		})
+	}
+	scan(fn, nil)
+	// helpers of the loop: functions of the package called with the thread from inside the loop, before the fetch
+	var thread ssa.Value
+	for _, p := range fn.Params {
+		if qualType(p.Type()) == "starlark.Thread" {
+			thread = p
+		}
+	}
+	fb := lf.fetch.Block()
+	eachInstr(fn, func(in ssa.Instruction) {
+		call, ok := in.(*ssa.Call)
+		if !ok || thread == nil {
+			return
+		}
+		cal := call.Call.StaticCallee()
+		if cal == nil || cal.Blocks == nil || fnPkgPath(cal) != modPath+"/starlark" || lf.helpers[cal] {
+			return
+		}
+		takesThread := false
+		for _, a := range call.Call.Args {
+			if a == thread {
+				takesThread = true
+			}
+		}
+		if !takesThread || !instrDominates(call, lf.fetch) || !(call.Block() == fb || reachable(fb, call.Block())) {
+			return
+		}
+		// only helpers that touch the step accounting
+		touches := false
+		eachInstr(cal, func(in2 ssa.Instruction) {
+			if _, ok := storeToField(in2, "starlark.Thread", "Steps"); ok {
+				touches = true
+			}
+		})
+		if touches {
+			lf.helpers[cal] = true
+			scan(cal, call)
 		}
 	})
 	return lf
@@ -188,9 +281,9 @@ func ruleS1(c *Ctx) {
 		switch {
 		case !isInc:
 			c.viol(key, pos(st), "thread.Steps is not incremented by exactly one")
-		case !instrDominates(st, lf.fetch):
+		case !lf.before(st, lf.fetch):
 			c.viol(key, pos(st), "the step increment does not dominate the instruction fetch: some instruction executes uncounted")
-		case !inLoop(st):
+		case !inLoop(lf.anchor(st)):
 			c.viol(key, pos(st), "the step increment is outside the interpreter loop (executed once per call, not once per instruction)")
 		default:
 			c.ok(key, pos(st), "single Steps+1 store, inside the loop, dominating the fetch")
@@ -201,9 +294,9 @@ func ruleS1(c *Ctx) {
 	switch {
 	case lf.limitIf == nil:
 		c.viol(key, c.P.Pos(lf.fn.Pos()), "no branch comparing thread.Steps with thread.maxSteps")
-	case !instrDominates(lf.limitIf, lf.fetch) || !inLoop(lf.limitIf):
+	case !lf.before(lf.limitIf, lf.fetch) || !inLoop(lf.anchor(lf.limitIf)):
 		c.viol(key, pos(lf.limitCmp), "the step-limit test does not dominate the fetch inside the loop")
-	case len(lf.stepStore) == 1 && !instrDominates(lf.stepStore[0], lf.limitIf):
+	case len(lf.stepStore) == 1 && !lf.before(lf.stepStore[0], lf.limitIf):
 		c.viol(key, pos(lf.limitCmp), "the limit is tested before the increment")
 	default:
 		c.ok(key, pos(lf.limitCmp), "dominates the fetch, after the increment")
@@ -213,7 +306,7 @@ func ruleS1(c *Ctx) {
 	switch {
 	case lf.cancelLd == nil:
 		c.viol(key, c.P.Pos(lf.fn.Pos()), "no nil-test of thread.cancelReason.Load() in CallInternal: cancellation is never observed")
-	case !instrDominates(lf.cancelIf, lf.fetch) || !inLoop(lf.cancelIf):
+	case !lf.before(lf.cancelIf, lf.fetch) || !inLoop(lf.anchor(lf.cancelIf)):
 		c.viol(key, pos(lf.cancelLd), "the cancellation test does not dominate the fetch inside the loop")
 	default:
 		// non-nil edge must leave the loop
@@ -232,7 +325,7 @@ func ruleS1(c *Ctx) {
 		}
 		if nonNil == fb || reachable(nonNil, fb) || nonNil.Dominates(fb) {
 			c.viol(key, pos(lf.cancelLd), "after observing a cancel reason execution can still reach the instruction fetch")
-		} else if lf.limitIf != nil && !instrDominates(lf.limitIf, lf.cancelIf) {
+		} else if lf.limitIf != nil && !lf.before(lf.limitIf, lf.cancelIf) {
 			c.viol(key, pos(lf.cancelLd), "cancellation is tested before the step-limit test: the cancellation raised by reaching the limit is only seen one instruction later, so step N executes")
 		} else {
 			c.ok(key, pos(lf.cancelLd), "dominates the fetch; non-nil edge leaves the loop; after the limit test")
@@ -245,7 +338,7 @@ func ruleS1(c *Ctx) {
 		found := false
 		if reached != nil {
 			// blocks dominated by reached (until merge)
-			for _, b := range lf.fn.Blocks {
+			for _, b := range lf.limitIf.Parent().Blocks {
 				if b == reached || reached.Dominates(b) {
 					for _, in := range b.Instrs {
 						if call, ok := in.(*ssa.Call); ok {
@@ -346,7 +439,7 @@ func ruleS2(c *Ctx) {
 		if side == sv {
 			post = true
 		}
-		if ld, ok := side.(*ssa.UnOp); ok && ld.Op == token.MUL && instrDominates(lf.stepStore[0], ld) {
+		if ld, ok := side.(*ssa.UnOp); ok && ld.Op == token.MUL && lf.before(lf.stepStore[0], ld) {
 			post = true
 		}
 	}
@@ -367,7 +460,11 @@ func ruleS2(c *Ctx) {
 		case *ssa.UnOp:
 			if x.Op == token.MUL {
 				if _, ok := x.X.(*ssa.FieldAddr); ok {
-					if !blockReaches(x.Block(), x.Block()) {
+					ab := x.Block()
+					if site, ok := lf.site[ssa.Instruction(b)]; ok && x.Parent() != lf.fn {
+						ab = site.Block() // read inside a helper that the loop calls on every iteration
+					}
+					if !blockReaches(ab, ab) {
 						stale = c.P.Pos(x.Pos())
 					}
 					return
@@ -470,6 +567,8 @@ func ruleS3(c *Ctx) {
 				key := fmt.Sprintf("%s: store Thread.Steps", fnName(fn))
 				if methodIs(fn, "starlark", "Function", "CallInternal") {
 					c.ok(key, c.P.Pos(st.Pos()), "the interpreter loop's increment")
+				} else if lf := gatherLoop(c); lf != nil && lf.helpers[fn] && len(callersOf(c.P, fn)) == 1 {
+					c.ok(key, c.P.Pos(st.Pos()), "the interpreter loop's increment, in a helper called only from the loop")
 				} else {
 					c.viol(key, c.P.Pos(st.Pos()), "thread.Steps is written outside the interpreter loop: the step count no longer equals the number of executed instructions")
 				}
